@@ -201,6 +201,10 @@ def lookup_name(I, st, env, name, frame):
     if (mod, name) in m.functions:
         return FuncV(mod, m.functions[(mod, name)])
     imp = m.imports.get(mod, {}).get(name)
+    if imp is not None and imp[0] == 'from':
+        src = imp[1].split('.')[-1] if imp[1] else ''
+        if (src, imp[2]) in m.functions:
+            return FuncV(src, m.functions[(src, imp[2])])
     if imp is not None:
         if imp[0] == 'mod':
             return ModuleRef(imp[1])
